@@ -323,7 +323,7 @@ class Canon:
             v = self.num(rest, sub)
             if v == (0, 0):
                 continue
-            lam_v = self.cfrac(S.expand(lam).subs(consts))
+            lam_v = self.cfrac(S.expand(S.cancel(S.together(lam))).subs(consts))
             ph, mu_v = self.split_exponent(S.expand(mu), consts)
             ph, v = fold_phase(ph, v)
             ts.sort(key=lambda t: (0 if t[0] == 'sinc' else 1, t[1], t[2]))
@@ -380,6 +380,11 @@ class Canon:
         S = self.S
         if kappa == 0:
             return Fraction(0), (Fraction(0), Fraction(0))
+        if kappa.has(S.pi):
+            # pole expressions may come out unsimplified, e.g. (30 + 50*pi - 10*I)/(6 + 10*pi - 2*I) = 5
+            kappa = S.expand(S.cancel(S.together(kappa)))
+            if kappa.has(S.pi) and not kappa.is_polynomial(S.pi):
+                raise CanonFail('exponent not polynomial in pi: %s' % str(kappa)[:60])
         p = S.Poly(kappa, S.pi) if kappa.has(S.pi) else None
         if p is None:
             k0, k1 = kappa, S.Integer(0)
